@@ -361,6 +361,9 @@ structure HField where
   name : String
   isJoin : Bool
   aliases : List String := []   -- `AS` names given by earlier items of the select list being evaluated
+  number : Nat := 0             -- position of the column in its table (1-based; 0 = none: join column, computed)
+  fromTable : Bool := true      -- IsFromTable: a column of a table (not the internal id, not a computed column)
+  identifier : String := ""     -- formatted text of the expression a computed column stands for
   deriving Repr, DecidableEq, Inhabited
 
 /-- `strings.EqualFold` on the ASCII identifiers the generators use -/
@@ -683,6 +686,96 @@ def scalarPerRow (L R : List Row) (c : Cond) (j : Nat) : Except ResErr (List Row
     | _, .error e => .error e
 
 /-- `view.*`: the header fields of that view (exact spelling), in header order -/
-def viewStarFields (h : List HField) (v : String) : List HField := h.filter (fun f => f.view == v)
+def viewStarFields (h : List HField) (v : String) : List HField := h.filter (fun f => f.fromTable && f.view == v)
+
+/-! ## the other lookups of header.go
+
+  `FieldNumberIndex` (`t.2`: view name and 1-based column number; the first such field, no ambiguity test),
+  `ContainsObject` for something that is not a reference (a computed column is found again by the formatted text
+  of its expression, compared by `equalFieldIdentifiers`), `SearchIndex` (column number or field reference),
+  `TableColumns` / the wildcard expansion of `View.Select`. -/
+
+def numberMatches (view : String) (number : Int) (f : HField) : Bool :=
+  eqFold f.view view && ((f.number : Int) == number)
+
+def fieldNumberIndex (h : List HField) (view : String) (number : Int) : Except ResErr Nat :=
+  if number < 1 then .error .notExist
+  else match h.findIdx? (numberMatches view number) with
+    | some k => .ok k
+    | none => .error .notExist
+
+def identMatches (eqId : String → String → Bool) (column : String) (f : HField) : Bool :=
+  !(f.fromTable || f.identifier == "") && eqId f.identifier column
+
+def containsIdent (eqId : String → String → Bool) (h : List HField) (column : String) : Option Nat :=
+  h.findIdx? (identMatches eqId column)
+
+/-- a reference as `SearchIndex` sees it -/
+inductive FieldRef
+  | byName (view : Option String) (name : String)
+  | byNumber (view : String) (number : Int)
+  deriving Repr, Inhabited
+
+def searchIndex (h : List HField) : FieldRef → Except ResErr Nat
+  | .byName v n => fieldIndex h v n
+  | .byNumber v k => fieldNumberIndex h v k
+
+/-- `equalFieldIdentifiers`: letter case is ignored except inside single-quoted string literals
+    (back-quoted identifiers are skipped as a whole; a backslash protects the next character) -/
+def eqIdentLoop : List Char → List Char → Char → Bool → Bool
+  | a :: as, b :: bs, quote, escaped =>
+    if quote == '\x00' then
+      eqIdentLoop as bs (if a == '\'' || a == '`' then a else quote) escaped
+    else if quote == '\'' && a != b then false
+    else if escaped then eqIdentLoop as bs quote false
+    else if a == '\\' then eqIdentLoop as bs quote true
+    else if a == quote then eqIdentLoop as bs '\x00' escaped
+    else eqIdentLoop as bs quote escaped
+  | _, _, _, _ => true
+
+def eqIdent (a b : String) : Bool :=
+  if a == b then true
+  else if !(eqFold a b) then false
+  else if a.toList.length != b.toList.length then true
+  else eqIdentLoop a.toList b.toList '\x00' false
+
+/-- `*`: the columns of tables, in header order -/
+def starFields (h : List HField) : List HField := h.filter (fun f => f.fromTable)
+
+/-! ## USING / NATURAL: which columns are joined (`ParseJoinCondition`, join.go)
+
+  NATURAL: every left column name (header order) that the right header resolves as an unqualified reference; an
+  ambiguous right side is an error, an unknown name is skipped.  Then, for USING and NATURAL alike, every name is
+  resolved as an unqualified reference on the left and on the right (first error wins). -/
+
+def naturalNames (lh rh : List HField) : Except ResErr (List String) :=
+  match lh with
+  | [] => .ok []
+  | f :: fs =>
+    match fieldIndex rh none f.name with
+    | .error .ambiguous => .error .ambiguous
+    | .error _ => naturalNames fs rh
+    | .ok _ =>
+      match naturalNames fs rh with
+      | .ok ns => .ok (f.name :: ns)
+      | .error e => .error e
+
+def usingPairs (lh rh : List HField) : List String → Except ResErr (List (Nat × Nat))
+  | [] => .ok []
+  | n :: ns =>
+    match fieldIndex lh none n with
+    | .error e => .error e
+    | .ok li =>
+      match fieldIndex rh none n with
+      | .error e => .error e
+      | .ok ri =>
+        match usingPairs lh rh ns with
+        | .ok ps => .ok ((li, ri) :: ps)
+        | .error e => .error e
+
+/-- a search loop `for i, f := range h { if p(f) { found = i; break } }`; `idx` = the value when nothing is found -/
+def runLoopShape (p : HField → Bool) : List HField → Nat → Int → Int
+  | [], _, idx => idx
+  | f :: fs, i, idx => if p f then (i : Int) else runLoopShape p fs (i + 1) idx
 
 end Csvq.Rel
